@@ -897,7 +897,7 @@ class Evaluator:
         if self._is_pure(name):
             # the same pure predicate asked about the same arguments is ONE atom, wherever it is asked
             return T("call", name, args, None)
-        if m in ("any", "all") and "Iterator" in name and len(args) == 2 and isinstance(args[1], tuple) and args[1] and args[1][0] == "closure" \
+        if m in ("any", "all", "find", "position", "rposition") and "Iterator" in name and len(args) == 2 and isinstance(args[1], tuple) and args[1] and args[1][0] == "closure" \
                 and not any(args[1][3]) and self._closure_is_pure(args[1][1]):
             # xs.iter().any(|x| pure(x, captures)) is a function of xs and the captures
             return T("call", name, args, None)
@@ -1579,6 +1579,13 @@ def subst(t, mapping):
     new = tuple(subst(x, mapping) if isinstance(x, tuple) else x for x in t)
     if new in mapping:
         return mapping[new]
+    # projections of a substituted tuple / aggregate
+    if len(new) == 3 and new[0] == "field" and isinstance(new[1], tuple) and new[1]:
+        base = new[1]
+        if base[0] == "tuple" and str(new[2]).isdigit() and int(new[2]) < len(base[1]):
+            return base[1][int(new[2])]
+        if base[0] == "agg" and len(base) > 4 and new[2] in base[4]:
+            return base[3][base[4].index(new[2])]
     return new
 
 
